@@ -16,7 +16,8 @@ Rec == ndJsonDeserialize(IOEnv.TRACE)
 VARIABLES l, run, cfg, viol, hits, nruns, cfgd, leaseEnd, reqXid, reqSent, goodAck, lastSol, rebound, renewTried, strictLease, lastArp
 vars == <<l, run, cfg, viol, hits, nruns, cfgd, leaseEnd, reqXid, reqSent, goodAck, lastSol, rebound, renewTried, strictLease, lastArp>>
 Rules == {"H1", "H2", "H3", "H4", "H5", "Q1", "Q2", "PANIC"}
-Add(v, x) == IF Len(v) >= 24 THEN v ELSE Append(v, x)
+\* the cap is per rule (x[2]): a flood of one rule (say Q2, which another check owns) must not crowd out the others
+Add(v, x) == IF Len(SelectSeq(v, LAMBDA e : e[2] = x[2])) >= 6 THEN v ELSE Append(v, x)
 RECURSIVE AddAll(_, _)
 AddAll(v, xs) == IF xs = <<>> THEN v ELSE AddAll(Add(v, Head(xs)), Tail(xs))
 Flush == viol = <<>> \/ PrintT(<<"RUNVIOL", ToJson([run |-> run, viol |-> viol])>>)
